@@ -262,7 +262,20 @@ def c16(res, thorough):
     # deterministic schedule two threads can stay phase-locked until the step budget runs out.  C16 is about linearizability,
     # not progress under unfair schedules: only a real deadlock (nobody can move) counts; budget exhaustion is recorded in
     # the evidence (hang_status).  First seen as a false alarm: striped client, cmap_ulist_striping, seed 1 case 2044 (pct).
-    setmap_check(res, thorough, "C16", "striped", hang_is_violation="deadlock")
+    setmap_check(res, thorough, "C16", "striped", hang_is_violation="deadlock", modules=["CdsVerif.Props.C16Striped"],
+                 mnv=["StripedSet: Lean machine (Algo/Striped, one machine for the striping and the refinable mutex policies: cell locks, lock_all / the refinable owner word and sweep, lock-array replacement, "
+                      "load-factor resizing decision, rehash; the bucket operation under its lock and the rehash under all locks are single steps) proved for all schedules, any hash function, capacities 2^k: "
+                      "lock discipline, a bucket is touched only under the lock that CURRENTLY guards it (refinable: needs the owner / array re-check), resize exclusive, no loss / no duplication across rehash, "
+                      "linearizability to Spec.map (C16_striped_linearizable, C16_refinable_linearizable); with the re-check removed the machine reaches a non-linearizable run (proved); "
+                      "tied by trace conformance (hidden variants tie_striping / tie_refinable: lock words per array generation, owner, mask, counter, one pseudo-event per bucket operation and per rehash with the table layout)",
+                      "CuckooSet / CuckooMap and the map forms of StripedSet: no machine; decided by histories"],
+                 partial=["CuckooSet/Map linearizability across resizes as a theorem: not proved; decided on explored schedules"])
+    for v in ("tie_striping", "tie_refinable"):
+        tie_A(res, "striped", "striped", [
+            {"args": ["--mode", "mixed", "--threads", "4", "--ops", "5", "--variant", v], "cases": 12000 if thorough else 1500},
+            {"args": ["--mode", "mixed", "--threads", "2", "--ops", "6", "--variant", v], "cases": 6000 if thorough else 600},
+            {"args": ["--mode", "enum1", "--threads", "3", "--ops", "2", "--variant", v], "cases": 6 if thorough else 3}],
+            label="striped:" + v)
 
 
 def oracle_check(res, thorough, prop, client, mnv, only=None, ignore=None, threads=3, ops=4, mixed=(3000, 40000), enum_cases=(10, 20), extra=(), variants=None):
